@@ -21,7 +21,7 @@ REVIEWED_PANIC = {
     r're:erltf::decoder::parse_local_ext:input\[\.\.Add\(8,Sub\(len\(be_u64\(input\)\?\.0\),len\(parse_term\(.*\)\?\.0\)\)\)\]':
         '`start[..8 + (input.len() - remaining.len())]`: input is start minus the 8 bytes consumed by be_u64 (start.len() = input.len() + 8) and remaining is a '
         'suffix of input (suffix relation proven for the inner Sub), so the bound equals start.len() - remaining.len() <= start.len()',
-    r're:erltf::decoder::parse_\w*_borrowed:Sub\(original_len,len\(.*\)\)(#\d+)?': SUFFIX,
+    r're:erltf::decoder::parse_\w*_borrowed:Sub\((\w+\.)?original_len,len\(.*\)\)(#\d+)?': SUFFIX,
     r're:erltf::decoder::parse_versioned_term_borrowed:Sub\(Sub\(original_len,len\(be_u8\(input\)\?\.0\)\),1\)':
         'after be_u8 succeeded the remaining input is at least one byte shorter than the buffer of length original_len, so the difference is >= 1',
     r're:erltf::types::Atom::new:index next\(.*\)\.as:Some\.0\.1 < len \d+':
